@@ -6,7 +6,7 @@ from core import nats, opt, b01, exc_kind, safe_check
 import taxutil as T
 
 PROPS = ('GambitV.Props.C10', 'GambitV.C10')
-TIE = [('GambitV.Tie.PyFindMatches', 'GambitV.Tie.Py'), ('GambitV.Tie.PyConsensus', 'GambitV.Tie.Py'), ('GambitV.Tie.PyClassify', 'GambitV.Tie.Py'), ('GambitV.Tie.PyPropsC10', 'GambitV.Tie.Py'), ('GambitV.Tie.PyQueryFlow', 'GambitV.Tie.Py'), ('GambitV.Tie.PyAncestors', 'GambitV.Tie.Py'), ('GambitV.Tie.PyClassifyDefaults', 'GambitV.Tie.Py'), ('GambitV.Tie.PyZipStrict', 'GambitV.Tie.Py')]
+TIE = [('GambitV.Tie.PyFindMatches', 'GambitV.Tie.Py'), ('GambitV.Tie.PyConsensus', 'GambitV.Tie.Py'), ('GambitV.Tie.PyClassify', 'GambitV.Tie.Py'), ('GambitV.Tie.PyPropsC10', 'GambitV.Tie.Py'), ('GambitV.Tie.PyQueryFlow', 'GambitV.Tie.Py'), ('GambitV.Tie.PyAncestors', 'GambitV.Tie.Py'), ('GambitV.Tie.PyClassifyDefaults', 'GambitV.Tie.Py'), ('GambitV.Tie.PyZipStrict', 'GambitV.Tie.Py'), ('GambitV.Tie.PyResultClasses', 'GambitV.Tie.Py')]
 RULE = ('consensus_taxon: (forest, ordered list of matched taxa): all forests with <= 4/5 nodes x all non-empty subsets x all orders '
         '[exhaustive]; random forests up to 12 nodes with <= 7 matched taxa x up to 50 random orders, incl. three-level conflicts '
         '{species, its subspecies, sibling species}. classify(strict=True): random forests x genome assignments x tie-heavy float32 rows, '
